@@ -17,7 +17,7 @@ static GLOBAL: arena::Arena = arena::Arena;
 pub use mccore::s4::alphabet;
 
 #[derive(Clone)]
-enum Outcome {
+pub enum Outcome {
     Disabled,
     State { hash: u128, class: Option<&'static str>, allocs: u64 },
     Violation(Vec<Failure>),
@@ -156,12 +156,58 @@ pub struct Found {
     pub count: u64,
 }
 
-fn render(ops: &[Op], hist: &[u8]) -> String {
-    hist.iter().map(|&i| format!("{:?}", ops[i as usize])).collect::<Vec<_>>().join("; ")
+/// An alphabet together with the harness that executes histories over it (the S4 harness or one of the
+/// wide-registry harnesses).
+pub struct Alpha {
+    pub n: usize,
+    pub kinds: Vec<&'static str>,
+    pub names: Vec<String>,
+    pub run: Box<dyn Fn(&[u8], &[Prop], bool) -> Outcome + Sync + Send>,
+}
+
+pub fn alpha(name: &str) -> Alpha {
+    use mccore::wide::{self, WOp};
+    fn conv(o: wide::WideOutcome) -> Outcome {
+        if o.disabled {
+            Outcome::Disabled
+        } else if !o.fails.is_empty() {
+            Outcome::Violation(o.fails)
+        } else {
+            Outcome::State { hash: o.hash, class: None, allocs: o.allocs }
+        }
+    }
+    let wide_run: Option<fn(&[WOp], &[u8], &[Prop]) -> wide::WideOutcome> = match name {
+        "w8" => Some(wide::w8::run_one),
+        "w10" => Some(wide::w10::run_one),
+        "w16" => Some(wide::w16::run_one),
+        _ => None,
+    };
+    if let Some(f) = wide_run {
+        let ops = wide::wide_alphabet();
+        let ops2 = ops.clone();
+        return Alpha {
+            n: ops.len(),
+            kinds: ops.iter().map(|o| o.kind()).collect(),
+            names: ops.iter().map(|o| format!("{:?}", o)).collect(),
+            run: Box::new(move |hist, props, _verbose| conv(f(&ops2, hist, props))),
+        };
+    }
+    let ops = alphabet(name);
+    let ops2 = ops.clone();
+    Alpha {
+        n: ops.len(),
+        kinds: ops.iter().map(|o| o.kind()).collect(),
+        names: ops.iter().map(|o| format!("{:?}", o)).collect(),
+        run: Box::new(move |hist, props, verbose| run_one(&RunCfg { ops: &ops2, props, salt: 0, check_all_steps: false, verbose }, hist)),
+    }
+}
+
+fn render(al: &Alpha, hist: &[u8]) -> String {
+    hist.iter().map(|&i| al.names[i as usize].clone()).collect::<Vec<_>>().join("; ")
 }
 
 pub fn bfs(name: &str, depth: usize, props: &[Prop], threads: usize, found: &mut Vec<Found>, deadline: Instant) -> ConfigResult {
-    let ops = alphabet(name);
+    let al = alpha(name);
     let mut visited: HashSet<u128> = HashSet::new();
     let mut frontier: Vec<Vec<u8>> = vec![vec![]];
     let mut res = ConfigResult {
@@ -179,11 +225,10 @@ pub fn bfs(name: &str, depth: usize, props: &[Prop], threads: usize, found: &mut
     };
     // initial state
     {
-        let cfg = RunCfg { ops: &ops, props, salt: 0, check_all_steps: false, verbose: false };
         let h = std::thread::scope(|s| {
             s.spawn(|| {
                 arena::init_thread(0);
-                run_one(&cfg, &[])
+                (al.run)(&[], props, false)
             })
             .join()
             .unwrap()
@@ -196,21 +241,20 @@ pub fn bfs(name: &str, depth: usize, props: &[Prop], threads: usize, found: &mut
         if Instant::now() > deadline {
             break;
         }
-        let nitems = frontier.len() * ops.len();
+        let nitems = frontier.len() * al.n;
         let results: Vec<Vec<(usize, Outcome)>> = std::thread::scope(|s| {
             let handles: Vec<_> = (0..threads)
                 .map(|t| {
                     let frontier = &frontier;
-                    let ops = &ops;
+                    let al = &al;
                     s.spawn(move || {
                         arena::init_thread(t);
-                        let cfg = RunCfg { ops, props, salt: 0, check_all_steps: false, verbose: false };
                         let mut out = Vec::with_capacity(nitems / threads + 1);
                         let mut hist: Vec<u8> = Vec::with_capacity(16);
                         let mut desc = String::with_capacity(128);
                         let mut i = t;
                         while i < nitems {
-                            let (fi, oi) = (i / ops.len(), i % ops.len());
+                            let (fi, oi) = (i / al.n, i % al.n);
                             hist.clear();
                             hist.extend_from_slice(&frontier[fi]);
                             hist.push(oi as u8);
@@ -218,7 +262,7 @@ pub fn bfs(name: &str, depth: usize, props: &[Prop], threads: usize, found: &mut
                             use std::fmt::Write;
                             let _ = write!(desc, "engine=hist config={} arena={} hist={:?}", name, t, hist);
                             util::set_crash_descriptor(&desc);
-                            out.push((i, run_one(&cfg, &hist)));
+                            out.push((i, (al.run)(&hist, props, false)));
                             i += threads;
                         }
                         out
@@ -236,12 +280,12 @@ pub fn bfs(name: &str, depth: usize, props: &[Prop], threads: usize, found: &mut
         let mut next: Vec<Vec<u8>> = Vec::new();
         let mut level_trans = 0u64;
         for (i, o) in flat.into_iter().enumerate() {
-            let (fi, oi) = (i / ops.len(), i % ops.len());
+            let (fi, oi) = (i / al.n, i % al.n);
             match o.unwrap() {
                 Outcome::Disabled => res.disabled += 1,
                 Outcome::State { hash, class, allocs } => {
                     level_trans += 1;
-                    *res.per_op.entry(ops[oi].kind()).or_default() += 1;
+                    *res.per_op.entry(al.kinds[oi]).or_default() += 1;
                     if let Some(c) = class {
                         *res.classes.entry(c).or_default() += 1;
                     }
@@ -254,7 +298,7 @@ pub fn bfs(name: &str, depth: usize, props: &[Prop], threads: usize, found: &mut
                 }
                 Outcome::Violation(fails) => {
                     level_trans += 1;
-                    *res.per_op.entry(ops[oi].kind()).or_default() += 1;
+                    *res.per_op.entry(al.kinds[oi]).or_default() += 1;
                     let mut h = frontier[fi].clone();
                     h.push(oi as u8);
                     for f in fails {
@@ -271,7 +315,7 @@ pub fn bfs(name: &str, depth: usize, props: &[Prop], threads: usize, found: &mut
         res.per_level.push((next.len(), level_trans));
         res.depth_done = d;
         if let Some(h) = next.get(next.len() / 2) {
-            res.samples.push(render(&ops, h));
+            res.samples.push(render(&al, h));
         }
         res.all_states.extend(next.iter().cloned());
         frontier = next;
@@ -287,25 +331,25 @@ fn default_configs(prop: Prop, tier: &str) -> Vec<(&'static str, usize)> {
     let q = tier == "quick";
     match prop {
         Prop::C01 => {
-            if q { vec![("shape", 7), ("alloc", 8), ("copy", 7), ("all", 3), ("zbig", 6)] } else { vec![("shape", 8), ("alloc", 10), ("copy", 8), ("all", 4), ("zbig", 7)] }
+            if q { vec![("shape", 7), ("alloc", 8), ("copy", 7), ("all", 3), ("zbig", 6), ("w8", 5), ("w10", 5), ("w16", 4)] } else { vec![("shape", 8), ("alloc", 10), ("copy", 8), ("all", 4), ("zbig", 7), ("w8", 7), ("w10", 7), ("w16", 6)] }
         }
         Prop::C02 => {
-            if q { vec![("alloc", 8), ("stale", 7), ("copy", 7), ("shape", 6), ("all", 3)] } else { vec![("alloc", 10), ("stale", 8), ("copy", 8), ("shape", 7), ("all", 4)] }
+            if q { vec![("alloc", 8), ("stale", 7), ("copy", 7), ("shape", 6), ("all", 3), ("w8", 5), ("w10", 5), ("w16", 4)] } else { vec![("alloc", 10), ("stale", 8), ("copy", 8), ("shape", 7), ("all", 4), ("w8", 7), ("w10", 7), ("w16", 6)] }
         }
         Prop::C04 => {
-            if q { vec![("shape", 7), ("copy", 7), ("all", 3), ("zbig", 7)] } else { vec![("shape", 8), ("copy", 8), ("all", 4), ("zbig", 8), ("alloc", 8)] }
+            if q { vec![("shape", 7), ("copy", 7), ("all", 3), ("zbig", 7), ("w8", 5), ("w10", 5), ("w16", 4)] } else { vec![("shape", 8), ("copy", 8), ("all", 4), ("zbig", 8), ("alloc", 8), ("w8", 7), ("w10", 7), ("w16", 6)] }
         }
         Prop::C05 => {
-            if q { vec![("zbig", 7), ("shape", 7), ("copy", 7), ("alloc", 7), ("all", 3)] } else { vec![("zbig", 8), ("shape", 8), ("copy", 8), ("alloc", 9), ("all", 4)] }
+            if q { vec![("zbig", 7), ("shape", 7), ("copy", 7), ("alloc", 7), ("all", 3), ("w8", 5), ("w10", 5), ("w16", 4)] } else { vec![("zbig", 8), ("shape", 8), ("copy", 8), ("alloc", 9), ("all", 4), ("w8", 7), ("w10", 7), ("w16", 6)] }
         }
         Prop::C13 => {
-            if q { vec![("alloc", 8), ("shape", 7), ("copy", 7), ("stale", 6), ("all", 3), ("zbig", 6)] } else { vec![("alloc", 10), ("shape", 8), ("copy", 8), ("stale", 8), ("all", 4), ("zbig", 7)] }
+            if q { vec![("alloc", 8), ("shape", 7), ("copy", 7), ("stale", 6), ("all", 3), ("zbig", 6), ("w8", 5), ("w10", 5), ("w16", 4)] } else { vec![("alloc", 10), ("shape", 8), ("copy", 8), ("stale", 8), ("all", 4), ("zbig", 7), ("w8", 7), ("w10", 7), ("w16", 6)] }
         }
         Prop::C15 => {
             if q { vec![("res", 9), ("all", 3), ("copy", 6)] } else { vec![("res", 11), ("all", 4), ("copy", 7)] }
         }
         Prop::C06 => {
-            if q { vec![("twin", 7), ("copy", 7), ("alloc", 8)] } else { vec![("twin", 8), ("copy", 8), ("alloc", 10), ("all", 4)] }
+            if q { vec![("twin", 7), ("copy", 7), ("alloc", 8), ("w8", 5), ("w10", 5), ("w16", 4)] } else { vec![("twin", 8), ("copy", 8), ("alloc", 10), ("all", 4), ("w8", 7), ("w10", 7), ("w16", 6)] }
         }
         Prop::C10 => {
             if q { vec![("ctwin", 7), ("copy", 7), ("all", 3)] } else { vec![("ctwin", 8), ("copy", 8), ("all", 4)] }
@@ -416,10 +460,10 @@ fn main() {
         let _ = std::fs::create_dir_all(&dir);
         let fname: String = f.key.chars().map(|c| if c.is_ascii_alphanumeric() || c == '-' || c == '=' { c } else { '_' }).collect();
         let path = format!("{}/{}.json", dir, fname);
-        let ops = alphabet(&f.config);
+        let al = alpha(&f.config);
         let j = serde_json::json!({
             "engine": "hist", "property": f.prop.name(), "key": f.key, "detail": f.detail, "config": f.config,
-            "history": f.hist, "ops": f.hist.iter().map(|&i| format!("{:?}", ops[i as usize])).collect::<Vec<_>>(),
+            "history": f.hist, "ops": f.hist.iter().map(|&i| al.names[i as usize].clone()).collect::<Vec<_>>(),
             "arena": f.arena, "salt": 0, "occurrences": f.count,
         });
         std::fs::write(&path, serde_json::to_string_pretty(&j).unwrap()).unwrap();
@@ -453,7 +497,7 @@ fn main() {
             "exhaustive_within_bounds": !capped,
             "explanation": "explicit-state BFS over operation histories executed on the real brood::World (one fresh world + fresh arena per transition, prefix replayed), lock-step reference model; every transition is an implementation execution, so model traces and implementation traces coincide",
             "configs": results.iter().map(|(r, want)| serde_json::json!({
-                "alphabet": r.name, "alphabet_size": alphabet(&r.name).len(), "depth_completed": r.depth_done, "depth_requested": want,
+                "alphabet": r.name, "alphabet_size": alpha(&r.name).n, "depth_completed": r.depth_done, "depth_requested": want,
                 "states": r.states, "transitions": r.transitions, "disabled_transitions": r.disabled,
                 "new_states_and_transitions_per_level": r.per_level, "transitions_per_op": r.per_op, "precondition_classes": r.classes,
                 "max_allocations_in_one_execution": r.max_allocs,
@@ -481,14 +525,13 @@ fn main() {
 }
 
 fn replay_fails(config: &str, hist: &[u8], arena_idx: usize, prop: Prop, key: &str) -> bool {
-    let ops = alphabet(config);
+    let al = alpha(config);
     let props = [prop];
     let hist = hist.to_vec();
     std::thread::scope(|s| {
         s.spawn(move || {
             arena::init_thread(arena_idx);
-            let cfg = RunCfg { ops: &ops, props: &props, salt: 0, check_all_steps: false, verbose: false };
-            match run_one(&cfg, &hist) {
+            match (al.run)(&hist, &props, false) {
                 Outcome::Violation(f) => f.iter().any(|x| x.key == key),
                 _ => false,
             }
@@ -505,17 +548,16 @@ fn do_replay(path: &str) -> i32 {
     let hist: Vec<u8> = j["history"].as_array().unwrap().iter().map(|x| x.as_u64().unwrap() as u8).collect();
     let arena_idx = j["arena"].as_u64().unwrap_or(0) as usize;
     let prop = Prop::parse(j["property"].as_str().unwrap()).unwrap();
-    let ops = alphabet(&config);
+    let al = alpha(&config);
     println!("replaying {} on alphabet {} (arena {}):", prop.name(), config, arena_idx);
     for (i, &h) in hist.iter().enumerate() {
-        println!("  {i}: {:?}", ops[h as usize]);
+        println!("  {i}: {}", al.names[h as usize]);
     }
     let props = [prop];
     let out = std::thread::scope(|s| {
         s.spawn(|| {
             arena::init_thread(arena_idx);
-            let cfg = RunCfg { ops: &ops, props: &props, salt: 0, check_all_steps: false, verbose: true };
-            run_one(&cfg, &hist)
+            (al.run)(&hist, &props, true)
         })
         .join()
         .unwrap()
